@@ -56,6 +56,9 @@ Step(e) ==
       [] e.ev = "longlife" ->
             IF e.connect_failed = 0 /\ e.not_ok = 0 THEN Stutter
             ELSE Flag({"C11", "C17"}, "stream_open_unanswered_after_many_connections")
+      \* a registration on a stalled topic is acknowledged all the same (the answer does not wait for the router)
+      [] e.ev = "late_registration" ->
+            IF e.res = "ok" THEN Stutter ELSE Flag({"C11", "C17"}, "registration_on_a_stalled_topic_not_acknowledged")
       [] e.ev = "probe" ->
             IF e.res = "ok" THEN Stutter ELSE Flag({"C11", "C08"}, "topic_unusable_after_frame_sequence_" \o e.pattern)
       [] e.ev = "other_topic_roundtrip" ->
